@@ -163,11 +163,15 @@ func (g *genCtx) drawDefault(f *rc.FieldJ, label string) {
 		i := g.pick(len(e.Names), label+".ev")
 		f.HasDefault, f.DefKind = true, "int"
 		f.DefStr = strconv.FormatInt(int64(e.Values[i]), 10)
-		// member names are unique program-wide, so bare and qualified spellings are both fine
-		if g.pick(2, label+".q") == 0 {
+		// member names are unique program-wide, so bare and qualified spellings are both fine;
+		// the value may also be written as a number
+		switch g.pick(3, label+".q") {
+		case 0:
 			f.DefaultSrc = e.Names[i]
-		} else {
+		case 1:
 			f.DefaultSrc = e.Module + "::" + e.Names[i]
+		default:
+			f.DefaultSrc = f.DefStr
 		}
 	}
 }
@@ -363,11 +367,23 @@ func (g *genCtx) drawModule(name string, label string) *Module {
 			st.Fields = append(st.Fields, f)
 			tag += 1 + g.pick(2, label+".dgap")
 		}
-		if len(m.Enums) > 0 {
-			f := &rc.FieldJ{Name: "de", Tag: tag, Type: &rc.TypeJ{K: "enum", Ref: name + "." + m.Enums[0].Name}}
+		if len(g.enums) > 0 {
+			// an enum of this module or of one declared earlier (other file or module)
+			ref := g.enums[g.pick(len(g.enums), label+".deref")]
+			f := &rc.FieldJ{Name: "de", Tag: tag, Type: &rc.TypeJ{K: "enum", Ref: ref}}
 			g.drawDefault(f, label+".dev")
 			st.Fields = append(st.Fields, f)
 			tag++
+			// a second enum member whose default is a non-zero member written as a number
+			for i, v := range g.enumDef[ref].Values {
+				if v != 0 {
+					st.Fields = append(st.Fields, &rc.FieldJ{Name: "dn", Tag: tag, Type: &rc.TypeJ{K: "enum", Ref: ref},
+						HasDefault: true, DefKind: "int", DefStr: strconv.FormatInt(int64(v), 10), DefaultSrc: strconv.FormatInt(int64(v), 10)})
+					tag++
+					_ = i
+					break
+				}
+			}
 		}
 		// and two fixed-size array members, an optional and a required one (arrays are rare
 		// among the drawn member types)
@@ -382,6 +398,11 @@ func (g *genCtx) drawModule(name string, label string) *Module {
 			st.Fields = append(st.Fields, &rc.FieldJ{Name: fmt.Sprintf("da%d", k), Tag: tag, Require: req,
 				Type: &rc.TypeJ{K: "array", Elem: el, N: rapid.IntRange(1, 4).Draw(g.rt, label+".dan")}})
 			tag += 1 + g.pick(2, label+".dagap")
+		}
+		// byte vectors of both signednesses as the last members (optional: nothing required follows them)
+		for k, bk := range []string{"byte", "unsigned byte"} {
+			st.Fields = append(st.Fields, &rc.FieldJ{Name: fmt.Sprintf("db%d", k), Tag: tag, Type: &rc.TypeJ{K: "vector", Elem: &rc.TypeJ{K: bk}}})
+			tag++
 		}
 		m.Structs = append(m.Structs, st)
 		m.DeclOrder = append(m.DeclOrder, seq(len(st.Fields)))
